@@ -278,6 +278,76 @@ pub fn eval_fault(fc: &FaultCase) -> FaultOutcome {
     FaultOutcome { fired: true, violations: vs, outcome }
 }
 
+// ----- short writes: RLIMIT_FSIZE -----
+
+#[derive(Debug, Clone, Serialize, Deserialize)]
+pub struct LimitCase {
+    pub scenario: Scenario,
+    /// RLIMIT_FSIZE of the faulty run, in bytes
+    pub limit: u64,
+    pub recovery: String,
+    /// run the faulty generation through `init` (CLI only)
+    #[serde(default)]
+    pub via_init: bool,
+}
+
+/// faulty run under a file-size limit (the kernel cuts the write short, the next one fails), then
+/// the recovery suffix without the limit
+pub fn eval_limit(lc: &LimitCase) -> (Vec<Violation>, String) {
+    let sc = &lc.scenario;
+    let seam = seam_of(&sc.seam);
+    let sb = run::Sandbox::new();
+    let Some((base, current, cfg)) = prepare(sc, &sb.root) else { return (vec![], "prepare-failed".into()) };
+    let Some(reference) = sbx::reference_output(&current, &cfg) else { return (vec![], "no-reference".into()) };
+    let largest = reference.values().map(|t| t.len() as u64).max().unwrap_or(0);
+    sc.write_cfg(&sb.root, &cfg, true);
+    let r = if lc.via_init {
+        std::fs::write(sb.root.join("src-tauri/tauri.conf.json"), "{\"productName\":\"demo\"}").unwrap();
+        let mut args: Vec<String> = vec!["tauri-typegen".into(), "init".into(), "-p".into(), "./src-tauri".into(), "-g".into(), cfg.output_path.clone(), "-v".into(), cfg.mode_name().into()];
+        if sc.visualize {
+            args.push("--visualize-deps".into());
+        }
+        run::spawn(run::Spawn { program: run::cli_binary(), args, cwd: &sb.root, schedule_env: None, trace_file: None, strace: None, hash_seed: None, fsize_limit: Some(lc.limit) })
+    } else {
+        sbx::run_generate(&sb.root, seam, &RunOpts { fsize_limit: Some(lc.limit), ..sc.faulty_opts() })
+    };
+    sc.write_cfg(&sb.root, &cfg, false);
+    let mk = |class: &str, detail: String| {
+        Violation::new("C17", class, detail, json!({"limit_case": lc}))
+            .field("scenario", sc.pre_edit.clone().map(|e| format!("after-edit:{}", e)).unwrap_or("first-run".into()))
+            .field("forced", sc.forced.to_string())
+            .field("fault", "FileSizeLimit")
+            .field("target", if lc.limit < largest { "below-largest-file" } else { "above-all-files" })
+            .field("recovery", lc.recovery.clone())
+            .field("seam", if lc.via_init { "init".to_string() } else { sc.seam.clone() })
+            .field("mode", cfg.mode_name())
+    };
+    let mut vs = vec![];
+    // some binding / graph file does not fit: the run must say so
+    if lc.limit < largest && r.success() {
+        vs.push(mk("exit-zero-on-failed-write", format!("file size limit {} bytes (largest generated file: {} bytes) but the run exited 0; stdout tail: {}", lc.limit, largest, r.stdout.lines().rev().take(2).collect::<Vec<_>>().join(" | "))));
+    }
+    let target_project = if lc.recovery == "revert" {
+        sbx::write_sources(&sb.root, &base, &cfg);
+        sc.write_cfg(&sb.root, &cfg, false);
+        base.clone()
+    } else {
+        current.clone()
+    };
+    let rec = sbx::run_generate(&sb.root, seam, &RunOpts::default());
+    let out = run::read_out_dir(&sbx::out_dir(&sb.root, &cfg));
+    let outcome = format!("limit{}{} -> {} ; recovery({}) -> {}", if lc.limit < largest { "<largest" } else { ">=largest" }, if lc.via_init { " via init" } else { "" }, r.status_string(), lc.recovery, rec.status_string());
+    if !rec.success() {
+        vs.push(mk("recovery-run-failed", format!("recovery run exited {}: {}", rec.status_string(), rec.stderr.trim())));
+    } else if let Some(reference) = sbx::reference_output(&target_project, &cfg) {
+        let d = sbx::diff_against_reference(&out, &reference);
+        if !d.is_empty() {
+            vs.push(mk("stale-after-recovery", format!("faulty run under a {}-byte file size limit ({}) ; {} ; non-forced run reported success (cache hit: {}) but output is not a fresh generation: {}", lc.limit, r.status_string(), if lc.recovery == "revert" { "revert the edit" } else { "no change" }, rec.stdout.contains("up to date"), d.join("; "))));
+        }
+    }
+    (vs, outcome)
+}
+
 // ----- unusable output paths -----
 
 #[derive(Debug, Clone, Serialize, Deserialize)]
@@ -345,6 +415,9 @@ pub fn eval_path(pc: &PathCase) -> (Vec<Violation>, String) {
 }
 
 pub fn replay(case: &Value) -> Vec<Violation> {
+    if let Some(lc) = case.get("limit_case") {
+        return serde_json::from_value::<LimitCase>(lc.clone()).map(|l| eval_limit(&l).0).unwrap_or_default();
+    }
     if let Some(pc) = case.get("path_case") {
         return serde_json::from_value::<PathCase>(pc.clone()).map(|p| eval_path(&p).0).unwrap_or_default();
     }
@@ -434,6 +507,30 @@ pub fn run(tier: Tier) -> CheckResult {
     if not_fired > 0 {
         res.machinery_errors.push(format!("{} planned faults did not hit the planned syscall (strace counting diverged)", not_fired));
     }
+    // short writes: every scenario under a ladder of file-size limits
+    let mut lcs: Vec<LimitCase> = vec![];
+    for sc in &scenarios {
+        for limit in [0u64, 1, 100, 400, 512, 1000, 1024, 2000, 3000, 4096, 6000, 8192, 16384, 1 << 20] {
+            lcs.push(LimitCase { scenario: sc.clone(), limit, recovery: "direct".into(), via_init: false });
+            if sc.pre_edit.as_deref().is_some_and(|e| e != "@none") {
+                lcs.push(LimitCase { scenario: sc.clone(), limit, recovery: "revert".into(), via_init: false });
+            }
+            // the same fault when the generation is started through `init`
+            if sc.seam == "cli" && sc.pre_edit.is_none() {
+                lcs.push(LimitCase { scenario: sc.clone(), limit, recovery: "direct".into(), via_init: true });
+            }
+        }
+    }
+    let lres: Vec<Option<(Vec<Violation>, String)>> = lcs.par_iter().map(|c| if deadline.passed() { None } else { Some(eval_limit(c)) }).collect();
+    for r in lres {
+        match r {
+            None => exhaustive = false,
+            Some((v, o)) => {
+                outcomes.insert(o);
+                all_v.extend(v);
+            }
+        }
+    }
     // unusable paths
     let mut pcs = vec![];
     for kind in ["outdir-is-file", "types-is-dir", "index-is-dir", "cache-is-dir"] {
@@ -449,8 +546,10 @@ pub fn run(tier: Tier) -> CheckResult {
         all_v.extend(v);
     }
     res.violations = all_v;
-    res.coverage.set("evaluations", (cases.len() + pcs.len()) as u64);
-    res.coverage.set("distinct_nontrivial", fired + pcs.len() as u64);
+    res.coverage.set("evaluations", (cases.len() + pcs.len() + lcs.len()) as u64);
+    res.coverage.set("distinct_nontrivial", fired + pcs.len() as u64 + lcs.len() as u64);
+    res.coverage.set("file_size_limit_cases", lcs.len() as u64);
+    res.coverage.set("file_size_limit_outcomes", json!(outcomes.iter().filter(|o| o.starts_with("limit")).collect::<Vec<_>>()));
     res.coverage.set("fault_points", fault_points);
     res.coverage.set("faulty_runs_where_fault_fired", fired);
     res.coverage.set("faulty_runs_not_fired", not_fired);
@@ -461,9 +560,9 @@ pub fn run(tier: Tier) -> CheckResult {
     res.coverage.set("not_fired", json!(outcomes.iter().filter(|o| o.starts_with("not-fired")).collect::<Vec<_>>()));
     res.coverage.set("exhaustive", exhaustive);
     res.coverage.set("samples", json!(cases.iter().step_by((cases.len() / 4).max(1)).take(4).collect::<Vec<_>>()));
-    res.coverage.set("rule", "for each scenario (base project x mode x seam x visualisation x {first run, run after an output-changing edit, FORCED run over a valid cache with and without a preceding edit}) a recording run under strace lists every openat/write the main thread issues on files of the output directory; for EVERY such call and every fault kind (errno injection, SIGKILL on entry - a SIGKILL at the write leaves the file truncated by the preceding open) one faulty run of the real binary/build path, followed by the recovery suffix (plain non-forced run; or revert the edit then run); oracles: non-zero exit when a binding/graph write failed, recovery run succeeds and the output equals a fresh forced generation. A faulty run is non-trivial when strace confirms the fault hit the planned call.");
+    res.coverage.set("rule", "for each scenario (base project x mode x seam x visualisation x {first run, run after an output-changing edit, FORCED run over a valid cache with and without a preceding edit}) a recording run under strace lists every openat/write the main thread issues on files of the output directory; for EVERY such call and every fault kind (errno injection, SIGKILL on entry - a SIGKILL at the write leaves the file truncated by the preceding open) one faulty run of the real binary/build path, followed by the recovery suffix (plain non-forced run; or revert the edit then run); oracles: non-zero exit when a binding/graph write failed, recovery run succeeds and the output equals a fresh forced generation. Short writes: every scenario again under each of 14 file-size limits (RLIMIT_FSIZE with SIGXFSZ ignored: the kernel cuts the write short and the next one fails with EFBIG), through generate, the build path and - for first runs - `init`; a limit below the largest generated file must give a non-zero exit, and the same recovery oracle applies. A faulty run is non-trivial when strace confirms the fault hit the planned call (size-limit runs: always).");
     res.assumptions = vec![
-        "fs::write issues one write(2) per file here; short writes are out of scope".into(),
+        "errno / SIGKILL injection assumes one write(2) per file; short writes are covered separately through RLIMIT_FSIZE".into(),
         "strace per-thread syscall counting is stable between the recording run and the faulty run (verified per run through the INJECTED marker)".into(),
     ];
     res
